@@ -83,6 +83,9 @@ pub struct DevInner {
     pub pos: u64,
     pub cnt: Counters,
     pub log: Vec<LogItem>,
+    /// (call index, offset, length) of every logged write of the current / last operation (kept until the next
+    /// `begin_op`; generator support)
+    pub wcalls: Vec<(u64, u64, usize)>,
     pub fail_at: Option<u64>,
     pub fired: Option<Fired>,
     pub budget: u64,
@@ -98,6 +101,7 @@ impl DevInner {
             pos: 0,
             cnt: Counters::default(),
             log: Vec::new(),
+            wcalls: Vec::new(),
             fail_at: None,
             fired: None,
             budget: DEFAULT_BUDGET,
@@ -195,6 +199,7 @@ impl Dev {
         self.with(|d| {
             d.cnt = Counters::default();
             d.log.clear();
+            d.wcalls.clear();
             d.fired = None;
             d.fail_at = fault;
         });
@@ -257,6 +262,8 @@ impl Write for Dev {
             let pos = d.pos;
             d.poke(pos, &buf[..n]);
             d.log.push(LogItem::Write(pos, buf[..n].to_vec()));
+            let call = d.cnt.calls;
+            d.wcalls.push((call, pos, n));
             d.pos += n as u64;
         }
         Ok(n)
